@@ -8,6 +8,8 @@
 (*   local   r call ret view opid   the call as made, what it returned,     *)
 (*                                  the replica's view and operation id     *)
 (*   push    r n                                                            *)
+(*   tx      r calls commit view opid   a user transaction: the calls of its    *)
+(*                                  body, committed or aborted (C09)        *)
 (*   deliver r n view opid          the next n log entries reached r        *)
 (* TLC re-executes every event with the specification's own actions (the    *)
 (* kernels of Kernels.tla) and requires the logged view, returned value and *)
@@ -50,6 +52,29 @@ TLocal == /\ Is("local") /\ Adv
                 /\ (Kind = "map" => KSize(res.x.snap) = Ev.size)
                 /\ act' = [name |-> "local", r |-> r] /\ hist' = hist
           /\ UNCHANGED <<log, pulled, plain, nres, nbad>>
+\* the body of a transaction: the logged calls, one after the other, each valid where it is made
+RECURSIVE RunCalls(_, _, _)
+RunCalls(r, x, calls) ==
+    IF calls = <<>> THEN [x |-> x, ops |-> <<>>, ok |-> TRUE]
+    ELSE IF ~CallOK(x, Head(calls)) THEN [x |-> x, ops |-> <<>>, ok |-> FALSE]
+    ELSE LET res == Step(r, x, Head(calls))
+             rest == RunCalls(r, res.x, Tail(calls))
+         IN [x |-> rest.x, ops |-> <<res.op>> \o rest.ops, ok |-> rest.ok]
+TTx == /\ Is("tx") /\ Adv
+       /\ LET r == Ev.r
+              x0 == st[r]
+              x1 == [x0 EXCEPT !.l = @ + 1, !.s = @ + 1]          \* the header consumes an operation id
+              run == RunCalls(r, x1, Ev.calls)
+              header == [type |-> "tx", ts |-> <<x0.l + 1, r, 0>>, seq |-> x0.s + 1, n |-> Len(run.ops) + 1]
+              nx == IF Ev.commit THEN run.x ELSE x0                  \* abort: state, clock and sequence number as before
+          IN /\ run.ok
+             /\ st' = [st EXCEPT ![r] = nx]
+             /\ outbox' = IF Ev.commit THEN [outbox EXCEPT ![r] = @ \o <<header>> \o run.ops] ELSE outbox
+             /\ KView(nx.snap) = Ev.view
+             /\ nx.l = Ev.opid[1] /\ nx.s = Ev.opid[2]
+             /\ Ev.npend = Len(outbox'[r]) + Cardinality({i \in 1..Len(log) : log[i].from = r})   \* nothing else was queued
+       /\ act' = [name |-> "tx", r |-> Ev.r] /\ hist' = hist
+       /\ UNCHANGED <<log, pulled, plain, nres, nbad>>
 TPush == /\ Is("push") /\ Adv
          /\ outbox[Ev.r] # <<>> /\ Len(outbox[Ev.r]) = Ev.n
          /\ log' = log \o [i \in 1..Len(outbox[Ev.r]) |-> [from |-> Ev.r, op |-> outbox[Ev.r][i]]]
@@ -77,7 +102,7 @@ TReset == /\ Is("reset") /\ Adv
           /\ UNCHANGED <<plain, nres, nbad>>
 
 TraceInit == Init /\ l = 1 /\ TLCSet(1, 0)
-TraceNext == TLocal \/ TPush \/ TDeliver \/ TReset
+TraceNext == TLocal \/ TTx \/ TPush \/ TDeliver \/ TReset
 TraceSpec == TraceInit /\ [][TraceNext]_tvars
 NotAccepted == l <= Len(TheTrace)
 Progress == IF l > TLCGet(1) THEN TLCSet(1, l) /\ PrintT(<<"HW", l>>) ELSE TRUE
